@@ -72,6 +72,9 @@ def leaf_specs(rng, T, n, sf, base=0):
             # the leaf calls a function a script run *before* the proof defined (run_auth_scripts copies definitions from tape to tape)
             h_ = rng.choice([0, 3, 100]); prefix = T.Script.from_src('def %d { %s }' % (h_, rng.choice(['true', 'false', 'push d1 push d1 equal']))).bytes
             body = T.Script.from_src('call d%d' % h_).bytes
+        elif r < .12:
+            # a countdown loop close to the loop bound (= the call-stack limit, 128): it runs the same number of times wherever the leaf sits
+            body = T.Script.from_src('push d%d loop { push d-1 add_ints d2 } pop0 true' % rng.choice([126, 127, 128, 128, 129])).bytes
         elif r < .3: body = T.Script.from_src('true').bytes
         elif r < .4: body = T.Script.from_src('false').bytes
         elif r < .5: body = T.Script.from_src(rng.choice(['push d1 push d1 equal', 'push d1 push d2 less', 'push x0102 size push d2 equal verify pop0 true'])).bytes
@@ -359,6 +362,20 @@ def run(ctx: Ctx) -> Result:
             ok, o, tapes = auth([u, lockb])
             if ok != own:
                 B.viol('grown tree: a committed leaf cannot be run with its own verdict', {**inp, 'leaf': i, 'scripts': [u.hex(), lockb.hex()]}, own, o[:80])
+        # the same subtree combined into a second tree afterwards: the tree built last is a tree like any other
+        try:
+            top2 = T.ScriptNode(sub, T.ScriptLeaf.from_code(cs[4])) if it % 2 == 0 else T.ScriptNode(T.ScriptLeaf.from_code(cs[4]), sub)
+            lock2 = top2.locking_script().bytes
+            for i, l in enumerate(all_leaves(T, top2)):
+                u = l.unlocking_script().bytes
+                own = auth([l.script.bytes], record=False)[0]
+                ok, o, tapes = auth([u, lock2])
+                res.note_case(('regrow', how, it, i))
+                if ok != own:
+                    B.viol('a subtree combined into a second tree: a leaf of the tree built last cannot be run with its own verdict', {**inp, 'leaf': i, 'scripts': [u.hex(), lock2.hex()]}, own, o[:80])
+        except BaseException as e:
+            if isinstance(e, (KeyboardInterrupt, SystemExit)): raise
+            B.viol('combining an already-used subtree into a second tree raised', inp, 'a tree', type(e).__name__)
 
     # ---------------------------------------------------------------- the embedder's configuration reaches the leaf (own verdict under the same flags)
     N = {'CTS': 37, 'GETV': 64}
